@@ -83,6 +83,8 @@ def run(ctx):
             continue
         for b in r["breaches"]:
             ctx.violation(sig_of(r, b), f"real document code: {b}", {k: r[k] for k in ("json", "full", "edits", "text", "breaches", "expected", "actual")})
+    if summary["unsupported_version_only_objection"] == 0:
+        raise vlib.ToolError("vacuous: no case in which an unsupported version is the only objection to the document")
     if summary["repositories_initialised"] == 0 or summary["canonical_text_checked"] == 0:
         raise vlib.ToolError("no repository was initialised / no canonical text compared")
     ctx.cov["evaluations"] += summary["evaluations"]
@@ -91,7 +93,8 @@ def run(ctx):
     ctx.cov["samples"] += [{k: c[k] for k in ("json", "edits", "accepted", "errk")} for c in cases if c["json"]["payload"] == "custom" and c["accepted"]][:2]
     ctx.cov["exhaustive"] = True
     ctx.cov["drift_replay"] = summary["drift"]
-    ctx.cov["replay_detail"] = {k: summary[k] for k in ("accepted", "rejected", "roundtrips", "encode_refused", "canonical_text_checked", "repositories_initialised")}
+    ctx.cov["replay_detail"] = {k: summary[k] for k in ("accepted", "rejected", "roundtrips", "encode_refused", "canonical_text_checked", "repositories_initialised",
+                                                         "unsupported_version_texts", "unsupported_version_only_objection")}
     # 4. implementation -> spec
     rec = os.path.join(ctx.work, "rec.ndjson")
     ctx.engine(ENGINE, ["--mode", "record", "--n", 20000 if thorough else 2500, "--out", rec], timeout=3000)
